@@ -202,6 +202,21 @@ func runCheck(o *Options) int {
 				fi = w.litFunc(ct.PkgName + "." + ct.Key)
 			}
 			if fi == nil {
+				// the method still exists with the other kind of receiver (T <-> *T): the contract still speaks of it
+				alt := ""
+				if strings.HasPrefix(ct.Key, "(*") {
+					alt = "(" + ct.Key[2:]
+				} else if strings.HasPrefix(ct.Key, "(") {
+					alt = "(*" + ct.Key[1:]
+				}
+				if alt != "" {
+					if afi := w.Funcs[ct.PkgName+"."+alt]; afi != nil {
+						fi = afi
+						fmt.Printf("note: contract %s.%s bound to %s (receiver kind changed)\n", ct.PkgName, ct.Key, alt)
+					}
+				}
+			}
+			if fi == nil {
 				missing = append(missing, ct.PkgName+"."+ct.Key)
 				continue
 			}
